@@ -1081,6 +1081,8 @@ def build_cases(ctx: Ctx):
 
 # ====================================================================== entry points
 def run(ctx: Ctx):
+    from vf.prove import prove
+    prove(ctx, ["specs.helpers"], "C11")  # deductive part (specs/helpers.py)
     from vf.pool import pmap
     use_repo()
     cases = build_cases(ctx)
